@@ -139,7 +139,7 @@ pub fn exec_par(rep: &mut Report, prop: &str, batch: &[Pre], engine: Engine) {
             let value = matches!(p.rr.outcome, Outcome::Value(_)) && matches!(p.ir.ran, Ran::Ok(_));
             // error paths too, for the interpreter (refused accesses, call depth): the error must be the same
             let refused = engine == Engine::Interp && matches!(p.rr.outcome, Outcome::Oob { .. } | Outcome::Misaligned { .. } | Outcome::DepthExceeded { .. }) && matches!(p.ir.ran, Ran::Err(_));
-            (value || refused) && !p.rr.neg_ldabs && p.case.helpers.is_empty() && p.case.prog.len() <= 8 * 4096
+            (value || refused) && !p.rr.neg_ldabs && p.case.prog.len() <= 8 * 4200 * 2
         })
         .map(|p| ParCase { case: &p.case, pkt_mask: &p.rr.pkt_mask, mbuff_mask: &p.rr.mbuff_mask })
         .collect();
